@@ -182,7 +182,7 @@ func LoadReps(fn *ssa.Function) map[ssa.Value]ssa.Value {
 		return r
 	}
 	// killBetween: may instruction k execute after (the latest execution of) l1 and before l2?
-	killBetween := func(l1, l2 *ssa.UnOp, k ssa.Instruction) bool {
+	killBetween := func(l1, l2 ssa.Instruction, k ssa.Instruction) bool {
 		b1, b2, bk := l1.Block(), l2.Block(), k.Block()
 		if b1 == b2 && pos[l1] < pos[l2] {
 			// straight-line: only instructions between them (l1 dominates l2; a trip around a
@@ -231,7 +231,146 @@ func LoadReps(fn *ssa.Function) map[ssa.Value]ssa.Value {
 			if best != nil {
 				reps[l2] = best
 			}
+			// store-to-load forwarding: a dominating store to the same field with nothing
+			// in between that can change it — the load yields the stored value
+			for _, s := range fkills[k] {
+				st := s.(*ssa.Store)
+				dom := (st.Block() == l2.Block() && pos[st] < pos[l2]) || (st.Block() != l2.Block() && st.Block().Dominates(l2.Block()))
+				if !dom || st.Val.Type() != l2.Type() {
+					continue
+				}
+				clean := true
+				for _, kk := range ks {
+					if kk != s && killBetween(st, l2, kk) {
+						clean = false
+						break
+					}
+				}
+				if clean {
+					reps[l2] = st.Val
+				}
+			}
 		}
 	}
 	return reps
+}
+
+// StoredFieldAt returns the value that field f of the function-local struct object a holds
+// when instruction at executes, if a store to that field dominates at and nothing between
+// the two can change it (see LoadReps for what is tracked); nil otherwise.
+func StoredFieldAt(fn *ssa.Function, a *ssa.Alloc, f int, at ssa.Instruction) ssa.Value {
+	// synthesise through LoadReps' machinery: find a load of the field after `at`? Simpler:
+	// recompute locally with the same kill rules.
+	var stores []*ssa.Store
+	var kills []ssa.Instruction
+	ok := true
+	var visit func(p ssa.Value)
+	visit = func(p ssa.Value) {
+		for _, u := range Uses(p) {
+			switch x := u.(type) {
+			case *ssa.DebugRef:
+			case *ssa.FieldAddr:
+				for _, fu := range Uses(x) {
+					switch y := fu.(type) {
+					case *ssa.DebugRef:
+					case *ssa.UnOp:
+					case *ssa.Store:
+						if y.Addr == ssa.Value(x) {
+							if x.Field == f {
+								stores = append(stores, y)
+								kills = append(kills, y)
+							}
+						} else {
+							ok = false
+						}
+					default:
+						ok = false
+					}
+				}
+			case *ssa.UnOp:
+			case *ssa.Store:
+				if x.Addr == p && x.Val != p {
+					// whole-object store: a candidate too (the result then is the struct value)
+					kills = append(kills, x)
+					stores = append(stores, x)
+				} else {
+					ok = false
+				}
+			case *ssa.Call:
+				kills = append(kills, x)
+			case *ssa.MakeClosure:
+				for i, bnd := range x.Bindings {
+					if bnd == p && !readOnlyFreeVar(x.Fn.(*ssa.Function), i, 0) {
+						ok = false
+					}
+				}
+			case *ssa.MakeInterface:
+				visit(x)
+			case *ssa.ChangeInterface:
+				visit(x)
+			default:
+				ok = false
+			}
+		}
+	}
+	visit(a)
+	if !ok {
+		return nil
+	}
+	pos := func(in ssa.Instruction) int {
+		for i, x := range in.Block().Instrs {
+			if x == in {
+				return i
+			}
+		}
+		return -1
+	}
+	reach := func(from *ssa.BasicBlock) map[*ssa.BasicBlock]bool {
+		r := map[*ssa.BasicBlock]bool{}
+		st := append([]*ssa.BasicBlock{}, from.Succs...)
+		for len(st) > 0 {
+			x := st[len(st)-1]
+			st = st[:len(st)-1]
+			if r[x] {
+				continue
+			}
+			r[x] = true
+			st = append(st, x.Succs...)
+		}
+		return r
+	}
+	between := func(s *ssa.Store, k ssa.Instruction) bool {
+		b1, b2, bk := s.Block(), at.Block(), k.Block()
+		if b1 == b2 && pos(s) < pos(at) {
+			return bk == b1 && pos(k) > pos(s) && pos(k) < pos(at)
+		}
+		if bk == b1 && pos(k) > pos(s) {
+			return true
+		}
+		if bk == b2 && pos(k) < pos(at) {
+			return true
+		}
+		return reach(b1)[bk] && reach(bk)[b2]
+	}
+	var best *ssa.Store
+	for _, s := range stores {
+		dom := (s.Block() == at.Block() && pos(s) < pos(at)) || (s.Block() != at.Block() && s.Block().Dominates(at.Block()))
+		if !dom {
+			continue
+		}
+		clean := true
+		for _, k := range kills {
+			if k != ssa.Instruction(s) && k != at && between(s, k) {
+				clean = false
+				break
+			}
+		}
+		if clean {
+			best = s
+		}
+	}
+	if best == nil {
+		return nil
+	}
+	return best.Val
 }
